@@ -1,5 +1,696 @@
 /-
-C12 — property theorems (stub: not built yet).
+C12 — Results are independent of call history.
+
+Property theorems about the models of the four reuse mechanisms of regexp2:
+  * the replacement cache            (`Model/LRU.lean`         ← regexp.go `replacerDataCache`, `getReplacerData`)
+  * the size-classed buffer pools    (`Model/Pool.lean`        ← bufferpool.go, `decodeString*` in runner.go)
+  * the pooled interpreter state and its recycled result object
+                                     (`Model/RunnerReuse.lean` ← runner.go `scan`/`initMatch`/`putRunner`, match.go)
+and obligations over facts regenerated from the Go source on every run (`Generated/Fields.lean`): field
+inventories, reset write lists, pool size classes.  The models are tied to the code by those facts,
+by correspondence leg L (cache order) and by the model-free oracle leg Hs (call histories).
 -/
+import RegexVerif.Lemmas.LRU
+import RegexVerif.Lemmas.Pool
+import RegexVerif.Lemmas.RunnerReuse
+import RegexVerif.Generated.Fields
+
 namespace RegexVerif.Props.C12
+open RegexVerif
+
+/-! ## 1. the replacement cache -/
+section cache
+open RegexVerif.LRU RegexVerif.Lemmas.LRU
+open RegexVerif.LRU (get)
+variable {κ ν ε : Type} [DecidableEq κ]
+
+/-- cache invariant: no key occurs twice (so the Go map and the list agree) and, when a bound is
+    set, the list is no longer than `maxSize` -/
+def CacheInv (c : Cache κ ν) : Prop :=
+  (keys c.entries).Nodup ∧ (c.maxSize > 0 → c.entries.length ≤ c.maxSize)
+
+/-- **The LRU refines a finite map.**  Read the cache as the partial map `k ↦ lookup k entries`.  Then,
+    for every cache state satisfying the invariant:
+    (1) `get k` returns exactly the map's value at `k` and leaves the map unchanged (a hit only
+        reorders: the key moves to the front);
+    (2) after `add k v` the map sends `k` to `v`, loses at most the single key `evicted c k` -- which
+        is the *last* (least recently used) key and only when the cache was full and `k` new -- and is
+        unchanged everywhere else; in particular it never acquires a value nobody added;
+    (3) both operations preserve the invariant (no duplicate keys, size ≤ max).
+    For the Go code: `replacerDataCache.get/add` behave like a map with LRU eviction; a hit can only
+    return what was stored for that very key. -/
+theorem lru_refines_map (c : Cache κ ν) (h : CacheInv c) (k : κ) :
+    ((get c k).1 = lookup k c.entries ∧
+     (∀ k', lookup k' (get c k).2.entries = lookup k' c.entries) ∧
+     (∀ v, (get c k).1 = some v → (get c k).2.entries.head? = some (k, v)) ∧
+     CacheInv (get c k).2) ∧
+    ∀ v : ν,
+    (lookup k (add c k v).entries = some v ∧
+     (∀ k', k' ≠ k → lookup k' (add c k v).entries =
+        if evicted c k = some k' then none else lookup k' c.entries) ∧
+     (∀ k', evicted c k = some k' → (k :: keys c.entries).getLast? = some k' ∧ lookup k c.entries = none ∧
+        c.entries.length = c.maxSize) ∧
+     CacheInv (add c k v)) := by
+  obtain ⟨hnd, hsz⟩ := h
+  refine ⟨?_, ?_⟩
+  · -- get
+    cases hl : lookup k c.entries with
+    | none =>
+      rw [get_miss hl]
+      exact ⟨rfl, fun _ => rfl, (by intro v h; cases h), hnd, hsz⟩
+    | some w =>
+      rw [get_hit hl]
+      refine ⟨rfl, ?_, ?_, ?_, ?_⟩
+      · intro k'
+        by_cases hk : k' = k
+        · subst hk; simp [lookup, hl]
+        · have : ¬ k = k' := fun h' => hk h'.symm
+          simp only [lookup, this, if_false]
+          exact lookup_removeKey_ne hk _
+      · intro v hv; simp only [Option.some.injEq] at hv; subst hv; rfl
+      · simp only [keys, List.map_cons, List.nodup_cons]
+        exact ⟨not_mem_removeKey k _ hnd, nodup_removeKey k _ hnd⟩
+      · intro hm
+        have := length_removeKey hl
+        have := hsz hm
+        simp only [List.length_cons]; omega
+  · -- add
+    intro v
+    cases hl : lookup k c.entries with
+    | some w =>
+      rw [add_existing v hl, evicted_existing hl]
+      refine ⟨by simp [lookup], ?_, (by intro k' h; cases h), ?_, ?_⟩
+      · intro k' hk
+        have : ¬ k = k' := fun h' => hk h'.symm
+        simp only [lookup, this, if_false]
+        rw [lookup_removeKey_ne hk]; simp
+      · simp only [keys, List.map_cons, List.nodup_cons]
+        exact ⟨not_mem_removeKey k _ hnd, nodup_removeKey k _ hnd⟩
+      · intro hm
+        have := length_removeKey hl
+        have := hsz hm
+        simp only [List.length_cons]; omega
+    | none =>
+      have hnk : k ∉ keys c.entries := (lookup_none_iff k _).mp hl
+      have hnd' : (keys ((k, v) :: c.entries)).Nodup := by
+        simp only [keys, List.map_cons, List.nodup_cons]; exact ⟨hnk, hnd⟩
+      by_cases hfull : c.maxSize > 0 ∧ c.entries.length + 1 > c.maxSize
+      · rw [add_new_full v hl hfull, evicted_new_full hl hfull]
+        have hlen : c.entries.length = c.maxSize := by have := hsz hfull.1; omega
+        have hne : c.entries ≠ [] := by intro h; rw [h] at hlen; simp at hlen; omega
+        refine ⟨?_, ?_, ?_, ?_, ?_⟩
+        · -- k itself survives: it is the head and the list has at least two elements
+          rw [lookup_dropLast k _ hnd']
+          have : ¬ (keys ((k, v) :: c.entries)).getLast? = some k := by
+            intro hlast
+            obtain ⟨e, es, he⟩ := List.exists_cons_of_ne_nil hne
+            rw [he] at hlast hnk
+            simp only [keys, List.map_cons, List.getLast?_cons_cons] at hlast
+            have hm : k ∈ e.1 :: List.map (fun x => x.1) es := List.mem_of_getLast? hlast
+            simp only [keys, List.map_cons] at hnk
+            exact hnk hm
+          simp [this, lookup]
+        · intro k' hk
+          rw [lookup_dropLast k' _ hnd']
+          have : ¬ k = k' := fun h' => hk h'.symm
+          simp only [keys, List.map_cons, lookup, this, if_false]
+          by_cases he : (k :: List.map (fun x => x.fst) c.entries).getLast? = some k' <;> simp [he]
+        · intro k' hk'
+          exact ⟨hk', rfl, hlen⟩
+        · show (keys (((k, v) :: c.entries).dropLast)).Nodup
+          rw [keys_dropLast]; exact nodup_dropLast _ hnd'
+        · intro _; simp only [List.length_dropLast, List.length_cons]; omega
+      · rw [add_new_room v hl hfull, evicted_new_room hl hfull]
+        refine ⟨by simp [lookup], ?_, (by intro k' h; cases h), hnd', ?_⟩
+        · intro k' hk
+          have : ¬ k = k' := fun h' => hk h'.symm
+          simp [lookup, this]
+        · intro hm
+          have hm' : c.maxSize > 0 := hm
+          show c.entries.length + 1 ≤ c.maxSize
+          omega
+
+/-- every cached value is what parsing its key yields -/
+def Valid (parse : κ → Except ε ν) (c : Cache κ ν) : Prop :=
+  ∀ k v, lookup k c.entries = some v → parse k = .ok v
+
+/-- **The cache is transparent.**  Whatever the cache holds (any state satisfying the invariants, i.e.
+    any state reachable by earlier `Replace` calls), `getReplacerData` returns exactly what parsing the
+    replacement returns -- value or error -- and leaves a cache that again satisfies the invariants.
+    For the Go code: `Regexp.Replace` cannot be influenced by which replacements were used before. -/
+theorem cache_transparent (parse : κ → Except ε ν) (cacheable : κ → Bool) (cache : Option (Cache κ ν))
+    (hinv : ∀ c, cache = some c → CacheInv c ∧ Valid parse c) (k : κ) :
+    (getReplacerData parse cacheable cache k).1 = parse k ∧
+    (∀ c', (getReplacerData parse cacheable cache k).2 = some c' → CacheInv c' ∧ Valid parse c') := by
+  unfold getReplacerData
+  cases cache with
+  | none => exact ⟨rfl, by intro c' h; cases h⟩
+  | some c =>
+    obtain ⟨hci, hv⟩ := hinv c rfl
+    by_cases hc : cacheable k = true
+    · simp only [hc, if_true]
+      obtain ⟨⟨hg1, hg2, _, hg4⟩, hadd⟩ := lru_refines_map c hci k
+      cases hl : lookup k c.entries with
+      | some v =>
+        -- hit: the stored value is the parse of the key
+        have hget := get_hit hl
+        rw [hget] at hg2 hg4
+        simp only [hget]
+        refine ⟨(hv k v hl).symm, ?_⟩
+        intro c' hc'
+        simp only [Option.some.injEq] at hc'
+        subst hc'
+        exact ⟨hg4, fun k' v' h' => hv k' v' (by rw [← hg2 k']; exact h')⟩
+      | none =>
+        have hget := get_miss hl
+        simp only [hget]
+        cases hp : parse k with
+        | error e => exact ⟨rfl, by intro c' h'; simp at h'; subst h'; exact ⟨hci, hv⟩⟩
+        | ok v =>
+          refine ⟨rfl, ?_⟩
+          intro c' hc'
+          simp only [Option.some.injEq] at hc'
+          subst hc'
+          obtain ⟨ha1, ha2, _, ha4⟩ := hadd v
+          refine ⟨ha4, ?_⟩
+          intro k' v' h'
+          by_cases hk : k' = k
+          · subst hk; rw [ha1] at h'; simp only [Option.some.injEq] at h'; subst h'; exact hp
+          · rw [ha2 k' hk] at h'
+            by_cases he : evicted c k = some k'
+            · simp [he] at h'
+            · simp only [he, if_false] at h'; exact hv k' v' h'
+    · simp only [hc]
+      exact ⟨rfl, by intro c' h; simp at h; subst h; exact ⟨hci, hv⟩⟩
+
+/-- non-vacuity: a cache of size 2 over numeric keys with `parse k = k + 100`; after three distinct
+    replacements the first one has been evicted, looking it up again re-parses, and every result equals
+    the parse. -/
+def exParse : Nat → Except Unit Nat := fun k => .ok (k + 100)
+def exStep (st : Option (Cache Nat Nat)) (k : Nat) := getReplacerData exParse (fun _ => true) st k
+def exRun : List Nat → Option (Cache Nat Nat) → List (Except Unit Nat) × Option (Cache Nat Nat)
+  | [], st => ([], st)
+  | k :: ks, st => let r := exStep st k; let rest := exRun ks r.2; (r.1 :: rest.1, rest.2)
+
+example : (exRun [1, 2, 1, 3, 2] (some (empty 2))).1.map (·.toOption) = [some 101, some 102, some 101, some 103, some 102] := by decide
+example : (exRun [1, 2, 1, 3] (some (empty 2))).2.map (fun c => keys c.entries) = some [3, 1] := by decide
+example : (exRun [1, 2, 1, 3, 2] (some (empty 2))).2.map (fun c => keys c.entries) = some [2, 3] := by decide
+
+example : CacheInv (empty 2 : Cache Nat Nat) ∧ Valid (fun k => (.ok (k + 100) : Except Unit Nat)) (empty 2) :=
+  ⟨⟨by simp [empty, keys], by intro _; simp [empty]⟩, by intro k v h; simp [empty, lookup] at h⟩
+
+end cache
+
+/-! ## 2. the buffer pools -/
+section pool
+open RegexVerif.Pool RegexVerif.Lemmas.Pool
+open RegexVerif.Pool (get)
+
+/-- **What `get` hands out.**  Whatever the pools hold and whichever buffer `sync.Pool` picks (or none),
+    the slice returned has exactly the requested length and its backing array is at least that long
+    (so `(*bufp)[:neededSize]` cannot panic); a pooled result (`*[]T` non-nil) has the capacity of its
+    size class once the pool invariant holds. -/
+theorem pool_get_len (p : Pools) (needed : Nat) (max : Int) (pick : Option Nat) :
+    (get p needed max pick).buf.len = needed ∧ needed ≤ (get p needed max pick).buf.cap ∧
+    (get p needed max pick).buf.visible.length = needed := by
+  have key : (get p needed max pick).buf.len = needed ∧ needed ≤ (get p needed max pick).buf.cap := by
+    unfold Pool.get
+    cases hi : poolIndex p.sizes needed max with
+    | none => simp [Buf.make, Buf.cap]
+    | some idx =>
+      have hfit := (poolIndex_spec hi).2.2.1
+      simp only [List.getD_eq_getElem?_getD] at hfit
+      cases pick with
+      | none => simp [Buf.make, Buf.cap, hfit]
+      | some j =>
+        simp only
+        cases hb : (p.held.getD idx [])[j]? with
+        | none => simp [Buf.make, Buf.cap, hfit]
+        | some b =>
+          simp only
+          by_cases hc : b.cap ≥ needed
+          · rw [if_pos hc]; exact ⟨rfl, hc⟩
+          · rw [if_neg hc]; simp [Buf.make, Buf.cap, hfit]
+  refine ⟨key.1, key.2, ?_⟩
+  unfold Buf.visible
+  rw [List.length_take, key.1]
+  have := key.2
+  unfold Buf.cap at this
+  omega
+
+/-- **Decoding overwrites.**  After the decode loop has written the `n` runes of the input into a slice
+    of length ≥ `n`, the slice handed on (`buf[:n]`) holds exactly those runes -- whatever the backing
+    array held before -- and two buffers of any stale contents give the same result. -/
+theorem decode_overwrites (b : Buf) (runes : List Int) (hlen : runes.length ≤ b.len) (hcap : b.len ≤ b.cap) :
+    (∃ b', decode b runes = some b' ∧ b'.visible = runes ∧ b'.cap = b.cap) ∧
+    ∀ b2 : Buf, runes.length ≤ b2.len → (decode b runes).map Buf.visible = (decode b2 runes).map Buf.visible := by
+  have vis : ∀ c : Buf, runes.length ≤ c.len → (decode c runes).map Buf.visible = some runes := by
+    intro c hc
+    simp [decode, hc, Buf.visible]
+  refine ⟨⟨{ data := runes ++ b.data.drop runes.length, len := runes.length }, by simp [decode, hlen], ?_, ?_⟩, ?_⟩
+  · simp [Buf.visible]
+  · unfold Buf.cap at *; simp; omega
+  · intro b2 h2; rw [vis b hlen, vis b2 h2]
+
+/-- **Pooled decode is history independent.**  `decodeString`: get a buffer for `len(s)` bytes from the
+    pools in *any* state with *any* pick, decode the `n ≤ len(s)` runes of `s` into it: the slice the
+    matcher sees is exactly the runes of `s`. -/
+theorem pool_decode_history_independent (p : Pools) (needed : Nat) (max : Int) (pick : Option Nat)
+    (runes : List Int) (hn : runes.length ≤ needed) :
+    (decode (get p needed max pick).buf runes).map Buf.visible = some runes := by
+  obtain ⟨h1, _, _⟩ := pool_get_len p needed max pick
+  simp [decode, h1, hn, Buf.visible]
+
+/-- **Class discipline.**  With strictly ascending class sizes (see `pool_sizes_ascending`): the
+    invariant "every buffer held for class `i` has capacity exactly `sizes[i]`" holds for new pools and
+    is preserved by `get` (any pick) and by `put` of any buffer whatsoever; `put` files a buffer of
+    capacity `sizes[i]` under class `i` and drops a buffer whose capacity is no class size; a pooled
+    `get` result has the capacity of the class `poolIndex` chose. -/
+theorem poolIndex_put_get_consistent (p : Pools) (hs : p.sizes.Pairwise (· < ·)) (h : Inv p) :
+    (∀ needed max pick, Inv (get p needed max pick).pools) ∧
+    (∀ b, Inv (put p b)) ∧
+    (∀ b i, i < p.sizes.length → b.cap = p.sizes.getD i 0 →
+        (put p b).held.getD i [] = { b with len := 0 } :: p.held.getD i []) ∧
+    (∀ b, (∀ i, i < p.sizes.length → b.cap ≠ p.sizes.getD i 0) → put p b = p) ∧
+    (∀ needed max pick idx, poolIndex p.sizes needed max = some idx →
+        (get p needed max pick).pooled = true ∧ (get p needed max pick).buf.cap = p.sizes.getD idx 0) := by
+  refine ⟨?_, ?_, ?_, ?_, ?_⟩
+  · intro needed max pick
+    unfold Pool.get
+    cases hi : poolIndex p.sizes needed max with
+    | none => exact h
+    | some idx =>
+      cases pick with
+      | none => exact h
+      | some j =>
+        simp only
+        cases hb : (p.held.getD idx [])[j]? with
+        | none => exact h
+        | some b =>
+          have hidx : idx < p.held.length := by rw [h.1]; exact (poolIndex_spec hi).2.1
+          have hrem : Inv { p with held := p.held.set idx (removeAt (p.held.getD idx []) j) } :=
+            inv_set h idx _ (fun x hx => h.2 idx hidx x (mem_removeAt _ _ _ hx))
+          simp only
+          by_cases hc : b.cap ≥ needed
+          · rw [if_pos hc]; exact hrem
+          · rw [if_neg hc]; exact hrem
+  · intro b
+    unfold put
+    cases hi : poolIndex p.sizes b.cap (-1) with
+    | none => exact h
+    | some idx =>
+      simp only
+      by_cases hne : b.cap ≠ p.sizes.getD idx 0
+      · rw [if_pos hne]; exact h
+      · rw [if_neg hne]
+        have hidx : idx < p.held.length := by rw [h.1]; exact (poolIndex_spec hi).2.1
+        apply inv_set h
+        intro x hx
+        simp only [List.mem_cons] at hx
+        cases hx with
+        | inl hx => subst hx; simp only [Buf.cap] at hne ⊢; omega
+        | inr hx => exact h.2 idx hidx x hx
+  · intro b i hi hcap
+    unfold put
+    rw [hcap, poolIndex_self hs hi]
+    have hidx : i < p.held.length := by rw [h.1]; exact hi
+    simp [List.getD, hidx]
+  · intro b hno
+    unfold put
+    cases hi : poolIndex p.sizes b.cap (-1) with
+    | none => rfl
+    | some idx =>
+      have := hno idx (poolIndex_spec hi).2.1
+      simp only []
+      rw [if_pos this]
+  · intro needed max pick idx hi
+    unfold Pool.get
+    rw [hi]
+    cases pick with
+    | none => simp [Buf.make, Buf.cap]
+    | some j =>
+      simp only
+      cases hb : (p.held.getD idx [])[j]? with
+      | none => simp [Buf.make, Buf.cap]
+      | some b =>
+        have hidx : idx < p.held.length := by rw [h.1]; exact (poolIndex_spec hi).2.1
+        have hbcap := h.2 idx hidx b (List.mem_of_getElem? hb)
+        simp only
+        by_cases hc : b.cap ≥ needed
+        · rw [if_pos hc]; exact ⟨rfl, hbcap⟩
+        · rw [if_neg hc]; simp [Buf.make, Buf.cap]
+
+/-- **`poolIndex` picks the smallest class that fits** and respects a positive `max`; `max = 0`
+    switches pooling off. -/
+theorem poolIndex_smallest_fit (sizes : List Nat) (needed : Nat) (max : Int) (i : Nat)
+    (h : poolIndex sizes needed max = some i) :
+    max ≠ 0 ∧ i < sizes.length ∧ needed ≤ sizes.getD i 0 ∧ (max > 0 → (sizes.getD i 0 : Int) ≤ max) ∧
+    ∀ j, j < i → sizes.getD j 0 < needed :=
+  poolIndex_spec h
+
+/-- the size classes of both global pools, as read from bufferpool.go, are strictly ascending -/
+theorem pool_sizes_ascending :
+    Generated.runePoolSizes.Pairwise (· < ·) ∧ Generated.bytePoolSizes.Pairwise (· < ·) := by decide
+
+/-- non-vacuity (small classes 4 and 16 for the evaluation): a class-4 buffer full of stale 7s, put back
+    and handed out again for a 3-byte input that decodes to 2 runes: the matcher sees exactly the 2
+    runes.  With the real classes: a 2000-rune request is served from the 4K class, with `max = 1024`
+    it is not pooled, and 300000 fits no class. -/
+example :
+    let p1 := put (Pools.new [4, 16]) { data := [7, 7, 7, 7], len := 4 }
+    let g := get p1 3 (-1) (some 0)
+    (g.pooled, g.buf.len, g.buf.cap, g.buf.visible, (decode g.buf [233, 26085]).map Buf.visible) =
+      (true, 3, 4, [7, 7, 7], some [233, 26085]) := by
+  decide
+
+example :
+    poolIndex Generated.runePoolSizes 2000 (-1) = some 1 ∧ poolIndex Generated.runePoolSizes 2000 1024 = none ∧
+    poolIndex Generated.runePoolSizes 300000 (-1) = none ∧ poolIndex Generated.runePoolSizes 5 0 = none := by
+  decide
+
+example : Inv (Pools.new [4, 16]) ∧ ([4, 16] : List Nat).Pairwise (· < ·) := ⟨inv_new _, by decide⟩
+
+end pool
+
+/-! ## 3. the pooled interpreter state and its recycled result object -/
+section runner
+open RegexVerif.RunnerReuse RegexVerif.Lemmas.RunnerReuse
+
+/-- **`scanInit` resets.**  Take any runner out of the pool (`PoolInv`: what `putRunner` establishes),
+    optionally select the bool-only program, and run the initialisation part of `scan`: the state a
+    scan can depend on (`observe`: selected program, text fields, the *used* parts of the three stacks,
+    track count, the result object's counts / cells below `2*count` / balancing flag / text fields,
+    timeout fields) is equal to the one obtained from a brand-new runner.  Positions are at the ends,
+    all `matchcount` are 0, `balancing` is false, `textstart`/`text` are the call's. -/
+theorem scanInit_resets (re : Re) (a : ScanArgs) (quick : Bool) (r : Runner) (h : PoolInv re r) :
+    let sel := fun r => if quick then selectQuick re r else r
+    observe (scanInit re a (sel r)) = observe (scanInit re a (sel Runner.fresh)) ∧
+    (observe (scanInit re a (sel r))).trackUsed = [] ∧ (observe (scanInit re a (sel r))).stackUsed = [] ∧
+    (observe (scanInit re a (sel r))).crawlUsed = [] ∧
+    (observe (scanInit re a (sel r))).matchView = some (List.replicate re.capsize (0, []), false, a.textstart, a.textInfo) := by
+  intro sel
+  obtain ⟨hcode, _, _, hrun⟩ := h
+  have hsel : ∀ r', RunInv re r' → RunInv re (sel r') ∧ (sel r').code = (if quick ∧ re.hasQuick then CodeSel.quick else r'.code) := by
+    intro r' hr'
+    cases quick <;> simp only [sel, selectQuick]
+    · exact ⟨hr', by simp⟩
+    · cases re.hasQuick <;> simp [hr']
+      exact hr'
+  obtain ⟨h1, c1⟩ := hsel r hrun
+  obtain ⟨h2, c2⟩ := hsel Runner.fresh (runInv_fresh re)
+  rw [observe_scanInit re a _ h1, observe_scanInit re a _ h2, c1, c2, hcode]
+  exact ⟨rfl, rfl, rfl, rfl, rfl⟩
+
+/-- **`putRunner` restores the pool invariant**: whatever a call did with the runner (bool-only program
+    selected, stacks in any state, captures left behind by an aborted match, `balancing` set), after
+    `putRunner` the main program is selected again and the references to the input are dropped; a new
+    runner satisfies the invariant too; and `scanInit` re-establishes the facts `putRunner` relies on. -/
+theorem put_resets_code (re : Re) (r : Runner) (h : RunInv re r) :
+    PoolInv re (put r) ∧ (put r).code = .main ∧ (put r).runtext = none ∧ PoolInv re Runner.fresh ∧
+    ∀ a, RunInv re (scanInit re a r) := by
+  refine ⟨⟨rfl, rfl, ?_, ?_, ?_⟩, rfl, rfl, poolInv_fresh re, ?_⟩
+  · intro m hm
+    simp only [put, Option.map_eq_some_iff] at hm
+    obtain ⟨m0, _, rfl⟩ := hm; rfl
+  · intro hal; exact h.1 hal
+  · intro m hm
+    simp only [put, Option.map_eq_some_iff] at hm
+    obtain ⟨m0, hm0, rfl⟩ := hm
+    exact h.2 m0 hm0
+  · intro a
+    have hbuilder : ∀ m, (match r.runmatch with
+        | none => Builder.new re.capsize a.textInfo a.textstart
+        | some m => m.reset a.textInfo a.textstart) = m → m.slots.length = re.capsize := by
+      intro m hm
+      cases hr : r.runmatch with
+      | none => rw [hr] at hm; subst hm; simp [Builder.new]
+      | some m0 => rw [hr] at hm; subst hm; simp [Builder.reset, h.2 m0 hr]
+    constructor
+    · intro _
+      cases hal : r.allocated <;> cases hto : a.noTimeout <;> simp [scanInit, initMatch, hal, hto]
+      all_goals exact h.1 hal
+    · intro m hm
+      apply hbuilder m
+      cases hal : r.allocated <;> cases hto : a.noTimeout <;>
+        simp [scanInit, initMatch, hal, hto] at hm <;> exact hm
+
+/-- **A call does not see the runner's history.**  Model a call as: take a runner from the pool, select
+    the program, `scanInit`, then *any* interpreter `run` that is a function of the observable state.
+    Its result is the same for every pooled runner as for a new one. -/
+theorem call_history_independent {ρ : Type} (re : Re) (a : ScanArgs) (quick : Bool) (run : Obs → ρ)
+    (r : Runner) (h : PoolInv re r) :
+    run (observe (scanInit re a (if quick then selectQuick re r else r))) =
+    run (observe (scanInit re a (if quick then selectQuick re Runner.fresh else Runner.fresh))) := by
+  have := (scanInit_resets re a quick r h).1
+  simp only at this
+  rw [this]
+
+/-- **The capacity of the recycled backtracking stack is not observable.**  `ensureStorage` (the only
+    place the capacity matters) fails with `ErrBacktrackingStackLimit` exactly when
+    `depth + 4*trackcount > limit` (`limit ≥ 0`), where `depth` is the number of used cells -- whatever
+    the current capacity, i.e. however far earlier calls grew the stack -- and on success it keeps the
+    depth.  Two runners with the same used depth therefore agree on error/no error. -/
+theorem ensureStorage_capacity_independent (limit : Int) (tc len1 pos1 len2 pos2 : Nat)
+    (h1 : TrackInv limit len1 pos1) (h2 : TrackInv limit len2 pos2) (hd : len1 - pos1 = len2 - pos2) :
+    ((ensureTrack limit tc (tc * 4) len1 pos1).isNone = (ensureTrack limit tc (tc * 4) len2 pos2).isNone) ∧
+    ((ensureTrack limit tc (tc * 4) len1 pos1).isNone = decide (limit ≥ 0 ∧ ((len1 - pos1 : Nat) : Int) + tc * 4 > limit)) ∧
+    (∀ l1 p1 l2 p2, ensureTrack limit tc (tc * 4) len1 pos1 = some (l1, p1) →
+        ensureTrack limit tc (tc * 4) len2 pos2 = some (l2, p2) → l1 - p1 = l2 - p2 ∧ l1 - p1 = len1 - pos1) := by
+  have s1 := ensureTrack_spec limit tc (tc * 4) len1 pos1 h1 (by omega)
+  have s2 := ensureTrack_spec limit tc (tc * 4) len2 pos2 h2 (by omega)
+  rw [← hd] at s2
+  by_cases hc : limit ≥ 0 ∧ ((len1 - pos1 : Nat) : Int) + tc * 4 > limit
+  · simp only [hc, and_self, if_true] at s1 s2
+    simp [s1, s2, hc]
+  · simp only [hc, if_false] at s1 s2
+    obtain ⟨l1, p1, e1, d1, _⟩ := s1
+    obtain ⟨l2, p2, e2, d2, _⟩ := s2
+    refine ⟨by simp [e1, e2], by simp [e1, hc], ?_⟩
+    intro a b c d ha hb
+    rw [e1] at ha; rw [e2] at hb
+    simp only [Option.some.injEq, Prod.mk.injEq] at ha hb
+    obtain ⟨rfl, rfl⟩ := ha
+    obtain ⟨rfl, rfl⟩ := hb
+    omega
+
+/-- **The interpreter scratch fields are dead on entry.**  `executeDefault` starts with `goTo(0)`; its
+    test `newpos <= r.codepos` is true for every left-over `codepos` (so storage is always ensured),
+    and `operator`, `codepos`, `rightToLeft`, `caseInsensitive` are overwritten from the program. -/
+theorem goToZero_ignores_scratch (op0 : Int) (rtl ci : Bool) (r r' : Runner)
+    (h : { r with operator := 0, codepos := 0, rightToLeft := false, caseInsensitive := false } =
+         { r' with operator := 0, codepos := 0, rightToLeft := false, caseInsensitive := false }) :
+    goToZero op0 rtl ci r = goToZero op0 rtl ci r' ∧ (goToZero op0 rtl ci r).1 = true := by
+  unfold goToZero
+  simp only [Nat.zero_le, decide_true, Prod.mk.injEq, true_and, and_true]
+  cases r; cases r'
+  simp only [Runner.mk.injEq] at h ⊢
+  simp_all
+
+/-- **Builder operations respect `≈`.**  Two slots with equal counts and equal cells below
+    `2*matchcount` (a fresh array and a recycled one with left-overs above) stay so under `addMatch`,
+    `removeMatch`, `balanceMatch` and the compaction of `tidy`, and `isMatched` / `matchIndex` /
+    `matchLength` return the same on both (read through `rdLive`; `builder_never_reads_stale` shows
+    the Go reads are of that kind). -/
+theorem builder_ops_respect_equiv (s t : Slot) (h : Slot.Equiv s t) (hs : s.lenOK) (ht : t.lenOK) :
+    (∀ a b, Slot.Equiv (s.addMatch a b) (t.addMatch a b) ∧ (s.addMatch a b).lenOK ∧ (t.addMatch a b).lenOK) ∧
+    (∀ s', s.removeMatch = some s' → ∃ t', t.removeMatch = some t' ∧ Slot.Equiv s' t' ∧ s'.lenOK ∧ t'.lenOK) ∧
+    ((s.balanceMatchWith rdLive = none ∧ t.balanceMatchWith rdLive = none) ∨
+       ∃ s' t', s.balanceMatchWith rdLive = some s' ∧ t.balanceMatchWith rdLive = some t' ∧ Slot.Equiv s' t') ∧
+    ((s.compact = none ∧ t.compact = none) ∨
+       ∃ s' t', s.compact = some s' ∧ t.compact = some t' ∧ Slot.Equiv s' t') ∧
+    s.isMatchedWith rdLive = t.isMatchedWith rdLive ∧
+    s.matchIndexWith rdLive = t.matchIndexWith rdLive ∧
+    s.matchLengthWith rdLive = t.matchLengthWith rdLive := by
+  refine ⟨?_, ?_, equiv_balanceMatch h hs ht, equiv_compact h, isMatched_congr h, matchIndex_congr h, matchLength_congr h⟩
+  · intro a b
+    exact ⟨equiv_addMatch h hs ht a b, (live_addMatch s a b hs).2, (live_addMatch t a b ht).2⟩
+  · intro s' hs'
+    obtain ⟨t', ht', he⟩ := equiv_removeMatch h hs'
+    exact ⟨t', ht', he, (live_removeMatch hs').2.2 hs, (live_removeMatch ht').2.2 ht⟩
+
+/-- **The builder never reads a cell at or above `2*matchcount`.**  For a well-formed slot (`WF`: lengths
+    fit and every balancing reference points below its own position) the Go reads (`rdAny`: whatever
+    the array holds, stale cells included) coincide with reads restricted to the live cells, for
+    `isMatched`, `matchIndex`, `matchLength` and `balanceMatch`; and well-formedness holds after
+    `reset` and is preserved by `Capture` (`addMatch` of non-negative values), `balanceMatch` and
+    `removeMatch`.  Hence stale array contents are never observed. -/
+theorem builder_never_reads_stale (s : Slot) (h : s.WF) :
+    (s.isMatchedWith rdAny = s.isMatchedWith rdLive ∧
+     s.matchIndexWith rdAny = s.matchIndexWith rdLive ∧
+     s.matchLengthWith rdAny = s.matchLengthWith rdLive ∧
+     s.balanceMatchWith rdAny = s.balanceMatchWith rdLive) ∧
+    (∀ start len : Int, 0 ≤ start → 0 ≤ len → (s.addMatch start len).WF) ∧
+    (∀ s', s.balanceMatchWith rdAny = some s' → s'.WF) ∧
+    (∀ s', s.removeMatch = some s' → s'.WF) ∧
+    (∀ t : Slot, t.arr.length ≠ 1 → ({ t with count := 0 } : Slot).WF) := by
+  refine ⟨⟨isMatched_any_eq_live s, matchIndex_any_eq_live s h, matchLength_any_eq_live s h,
+    balanceMatch_any_eq_live s h⟩, fun a b ha hb => wf_capture h a b ha hb, ?_, fun s' hs' => wf_removeMatch h hs', wf_reset⟩
+  intro s' hs'
+  rw [balanceMatch_any_eq_live s h] at hs'
+  exact wf_balanceMatch h hs'
+
+/-- **Captures are added with non-negative start and length.**  `Capture` orders its interval before
+    calling `addMatch`; `transferCapture` (balancing groups) records one of three intervals derived from
+    the group's text `[start, end)` and the cancelled capture `[start2, end2)`: in every case start and
+    length are non-negative, which is what `builder_never_reads_stale` needs so that a capture is never
+    mistaken for a balancing reference. -/
+theorem transfer_interval_nonneg (start end_ start2 end2 : Int) (h1 : 0 ≤ start) (h2 : start ≤ end_)
+    (h3 : 0 ≤ start2) (h4 : start2 ≤ end2) :
+    0 ≤ (transferInterval start end_ start2 end2).1 ∧ 0 ≤ (transferInterval start end_ start2 end2).2 := by
+  unfold transferInterval
+  split
+  · constructor <;> simp <;> omega
+  · split
+    · constructor <;> simp <;> omega
+    · simp only
+      constructor
+      · split <;> omega
+      · split <;> split <;> omega
+
+example : transferInterval 5 7 1 3 = (3, 2) ∧ transferInterval 1 2 5 9 = (2, 3) ∧ transferInterval 2 8 4 6 = (4, 2) := by decide
+
+/-- non-vacuity: a recycled slot (count 0, stale cells 5 9 -3 -4 from an earlier balancing match) and a
+    fresh one agree after the same operations: capture (2,3), capture (7,1), balance, and then report
+    the same index/length and compact to the same live cells; the stale cells are never visible. -/
+def exFresh : Slot := { count := 0, arr := [] }
+def exStale : Slot := { count := 0, arr := [5, 9, -3, -4, 8, 8, 8, 8] }
+def exOps (s : Slot) : Option Slot := ((s.addMatch 2 3).addMatch 7 1).balanceMatchWith rdAny
+structure ExView where
+  count : Nat
+  live : List Int
+  index : Option Int
+  length : Option Int
+  matched : Option Bool
+  compacted : Option (Nat × List Int)
+  deriving DecidableEq
+def exView (s : Slot) : ExView :=
+  { count := s.count, live := s.live, index := s.matchIndexWith rdAny, length := s.matchLengthWith rdAny,
+    matched := s.isMatchedWith rdAny, compacted := s.compact.map (fun c => (c.count, c.live)) }
+
+example : (exOps exFresh).map exView = (exOps exStale).map exView := by decide
+example : (exOps exStale).map exView = some ⟨3, [2, 3, 7, 1, -3, -4], some 2, some 3, some true, some (1, [2, 3])⟩ := by decide
+example : Slot.Equiv exFresh exStale ∧ exFresh.WF ∧ exStale.WF :=
+  ⟨⟨rfl, rfl⟩, ⟨⟨by decide, by decide⟩, by intro p v h; simp [exFresh, Slot.live] at h⟩,
+   ⟨⟨by decide, by decide⟩, by intro p v h; simp [exStale, Slot.live] at h⟩⟩
+
+/-- non-vacuity of `scanInit_resets`: a runner that ran a bool-only balancing match on a long input
+    (quick program selected, stacks grown and partly full, a recycled result object with counts,
+    left-over cells and `balancing` set), after `put`, is indistinguishable from a new runner once
+    `scanInit` has run; before `put` it violates the pool invariant. -/
+def exRe : Re := { capsize := 2, trackCount := 3, stackLimit := 1000, debug := false, hasQuick := true }
+def exUsed : Runner :=
+  { Runner.fresh with
+      code := .quick, runtext := some 7, runtextend := 5000, runtextpos := 4711,
+      runtrack := List.replicate 80 9, runtrackpos := 60, runstack := List.replicate 40 4, runstackpos := 10,
+      runcrawl := List.replicate 32 1, runcrawlpos := 30, allocated := true, runtrackcount := 3,
+      runmatch := some { slots := [{ count := 1, arr := [0, 4711] }, { count := 2, arr := [1, 2, -3, -4, 0, 0, 0, 0] }],
+                         balancing := true, textstart := 0, text := some 7 },
+      codepos := 17, operator := 9, deadline := 123 }
+def exArgs : ScanArgs := { rt := 8, rtLen := 3, textInfo := some 8, textstart := 0, timeout := 5, noTimeout := false, newDeadline := 999 }
+
+set_option maxRecDepth 8000 in
+example : observe (scanInit exRe exArgs (put exUsed)) = observe (scanInit exRe exArgs Runner.fresh) ∧
+    (put exUsed).code = .main ∧ exUsed.code ≠ .main ∧
+    observe (scanInit exRe exArgs exUsed) ≠ observe (scanInit exRe exArgs Runner.fresh) := by decide
+
+example : RunInv exRe exUsed := ⟨fun _ => by decide, by intro m h; simp [exUsed, Runner.fresh] at h; subst h; rfl⟩
+
+/-- non-vacuity of `ensureStorage_capacity_independent`: limit 1000, 3 backtracking instructions
+    (reserve 12): a fresh 64-cell stack and a recycled 1000-cell stack, both with 50 cells in use, both
+    succeed keeping depth 50; with 990 cells in use both fail. -/
+example :
+    (ensureTrack 1000 3 12 64 14).map (fun p => p.1 - p.2) = some 50 ∧
+    (ensureTrack 1000 3 12 1000 950).map (fun p => p.1 - p.2) = some 50 ∧
+    ensureTrack 1000 3 12 1000 10 = none ∧ ensureTrack 1000 3 20 990 0 = none := by decide
+
+end runner
+
+/-! ## 4. obligations over facts regenerated from the Go source -/
+section facts
+
+/-- how a field of a recycled object gets its value before a call can read it -/
+inductive ResetBy where
+  | constant        -- set when the object is created for this Regexp, never assigned again
+  | byPut           -- assigned by `putRunner` (and by the entry points that select the bool-only program)
+  | byScan          -- assigned unconditionally at the top of `scan`
+  | byInitMatch     -- assigned by `initMatch` (positions to the ends / new result object / `reset`)
+  | capacityOnly    -- array whose cells above the position are dead; only its length survives
+                    --   (`ensureStorage_capacity_independent`)
+  | byWatch         -- assigned by `startTimeoutWatch` whenever timeouts are on; not read otherwise
+  | byExecuteEntry  -- interpreter scratch, overwritten by `goTo(0)` / `setOperator` (`goToZero_ignores_scratch`)
+  | byTidy          -- assigned by `tidy` / `tidyMatch` before the match is handed to anybody
+  | staleAboveCount -- array whose cells at or above `2*matchcount` are dead (`builder_never_reads_stale`)
+  | neverOnPooled   -- only assigned on matches that have left the runner (never on a recycled one)
+  deriving DecidableEq, Repr
+
+/-- every field of `Runner`, with the way the model accounts for it -/
+def expectedRunnerFields : List (String × ResetBy) := [
+  ("re", .constant), ("code", .byPut), ("debug", .byScan),
+  ("Runtextstart", .byScan), ("Runtext", .byScan), ("Runtextpos", .byScan), ("Runtextend", .byScan),
+  ("runtrack", .capacityOnly), ("Runtrackpos", .byInitMatch),
+  ("runstack", .capacityOnly), ("Runstackpos", .byInitMatch),
+  ("runcrawl", .capacityOnly), ("runcrawlpos", .byInitMatch),
+  ("runtrackcount", .constant), ("runmatch", .byInitMatch),
+  ("ignoreTimeout", .byScan), ("timeout", .byScan), ("deadline", .byWatch),
+  ("operator", .byExecuteEntry), ("codepos", .byExecuteEntry), ("rightToLeft", .byExecuteEntry),
+  ("caseInsensitive", .byExecuteEntry)]
+
+/-- every field of `Match` (the embedded `Group` stands for `Capture{text, RuneIndex, RuneLength}`,
+    `Name`, `Captures`) -/
+def expectedMatchFields : List (String × ResetBy) := [
+  ("Group", .byTidy), ("regex", .constant), ("otherGroups", .neverOnPooled), ("textpos", .byTidy),
+  ("textstart", .byInitMatch), ("capcount", .byTidy), ("sparseCaps", .constant),
+  ("matches", .staleAboveCount), ("matchcount", .byInitMatch), ("balancing", .byInitMatch)]
+
+/-- **Every field of the recycled objects is accounted for.**  The field lists of `Runner`, `Match`,
+    `Group`, `Capture`, `matchText` read from the Go source are exactly the ones the model was written
+    against (each annotated above with how it is reset).  A new field breaks this obligation until the
+    model says how it is reset. -/
+theorem fields_accounted :
+    Generated.runnerFields = expectedRunnerFields.map (·.1) ∧
+    Generated.matchFields = expectedMatchFields.map (·.1) ∧
+    Generated.groupFields = ["Capture", "Name", "Captures"] ∧
+    Generated.captureFields = ["text", "RuneIndex", "RuneLength"] ∧
+    Generated.matchTextFields = ["runes", "input", "hasStringInput", "byteOffsets", "byteOffsetsReady"] ∧
+    Generated.replacerDataCacheFields = ["mu", "maxSize", "ll", "cache"] ∧
+    Generated.replacerDataCacheEntryFields = ["key", "data"] ∧
+    Generated.pooledSliceBuffersFields = ["sizes", "pools"] := by decide
+
+def writersOf (tbl : List (String × List String)) (f : String) : List String :=
+  (tbl.lookup f).getD []
+
+/-- **The reset code assigns what the model says it assigns.**
+    `(*Match).reset` assigns `text`, `textstart`, every `matchcount[i]` and `balancing`;
+    `putRunner` assigns `Runtext`, `code` and the result object's `text`;
+    `scan` starts with the seven unconditional assignments the model's `scanInit` performs and resets
+    the three stack positions between attempts; `initMatch` assigns the result object and the six
+    stack fields.  And the fields the invariants rely on have no other writers: `runtrackcount` is
+    assigned only by `initTrackCount`, `runmatch` only by `initMatch`/`tidyMatch`, `Runtext` only by
+    `scan`/`putRunner`, `code` only by the four entry points that select the bool-only program and by
+    `putRunner`, `deadline` only by `startTimeoutWatch`, `Match.textstart` only by `reset`,
+    `Match.balancing` only by `balanceMatch`/`reset`/`tidy`/`compactBalancedMatches`. -/
+theorem reset_writes_expected :
+    Generated.matchResetWrites = ["m.text", "m.textstart", "m.matchcount[i]", "m.balancing"] ∧
+    Generated.putRunnerWrites = ["r.Runtext", "r.code", "r.runmatch.text"] ∧
+    Generated.scanWrites =
+      ["r.timeout", "r.ignoreTimeout", "r.debug", "r.Runtextstart", "r.Runtext", "r.Runtextend", "r.Runtextpos",
+       "r.Runtextpos", "r.Runtrackpos", "r.Runstackpos", "r.runcrawlpos", "r.Runtextpos"] ∧
+    Generated.initMatchWrites =
+      ["r.runmatch", "r.runmatch", "r.Runtrackpos", "r.Runstackpos", "r.runcrawlpos",
+       "r.runtrack", "r.Runtrackpos", "r.runstack", "r.Runstackpos", "r.runcrawl", "r.runcrawlpos"] ∧
+    writersOf Generated.runnerFieldWriters "runtrackcount" = ["runner.go:Runner.initTrackCount"] ∧
+    writersOf Generated.runnerFieldWriters "runmatch" = ["runner.go:Runner.initMatch", "runner.go:Runner.tidyMatch"] ∧
+    writersOf Generated.runnerFieldWriters "Runtext" = ["runner.go:Regexp.putRunner", "runner.go:Runner.scan"] ∧
+    writersOf Generated.runnerFieldWriters "code" =
+      ["regexp.go:Regexp.FindAllRunesIndex", "regexp.go:Regexp.FindAllStringIndex", "regexp.go:Regexp.matchStringAt",
+       "runner.go:Regexp.putRunner", "runner.go:Regexp.run"] ∧
+    writersOf Generated.runnerFieldWriters "deadline" = ["runner.go:Runner.startTimeoutWatch"] ∧
+    writersOf Generated.runnerFieldWriters "re" = [] ∧
+    writersOf Generated.matchFieldWriters "textstart" = ["match.go:Match.reset"] ∧
+    writersOf Generated.matchFieldWriters "balancing" =
+      ["match.go:Match.balanceMatch", "match.go:Match.reset", "match.go:Match.tidy", "replace.go:compactBalancedMatches"] ∧
+    writersOf Generated.matchFieldWriters "otherGroups" = ["match.go:Match.populateOtherGroups"] ∧
+    writersOf Generated.matchFieldWriters "regex" = [] := by decide
+
+end facts
 end RegexVerif.Props.C12
